@@ -125,7 +125,7 @@ func (h *c17PexHooks) build(env *c17Env, c c17Case) (byte, []byte, bool) {
 
 func (h *c17PexHooks) probe(env *c17Env) string {
 	book := h.book[env.name]
-	if !c17WithTimeout(3*time.Second, func() { _ = book.Size(); _ = book.GetSelection() }) {
+	if !c17WithTimeout(10*time.Second, func() { _ = book.Size(); _ = book.GetSelection() }) {
 		return "address book locked"
 	}
 	return "ok"
